@@ -116,6 +116,34 @@ theorem bridged_not_titratable (P : PP α) (o : Opts) (s s' : St α) (cls : Stri
     · exact ht
     · rfl
 
+/-! ### model pKa and charge come from the tables (C01) -/
+/-- **C01 (the tabulated model pKa of its type)**: the model pKa a group is created with is the entry of the parameter file for its
+    residue type - or the custom entry for its residue and atom name when there is one -, and its charge is the entry of its group
+    type, or of its ion; nothing else enters (whatever the atoms, bonds and geometry). -/
+theorem group_model_from_tables (P : PP α) (s s' : St α) (cls : String) (i : Nat) (g : PGroup α)
+    (h : mkGroupCore P s cls i = some (s', g)) :
+    (g.modelSet = (Groups.lookup P.T.modelPkas g.resType).isSome) ∧
+    (∀ p, Groups.lookup P.T.modelPkas g.resType = some p →
+      g.model = P.micro ((Groups.lookup P.T.customPkas (Groups.strip (at' s i).resName ++ "-" ++ Groups.strip (at' s i).name)).getD p)) ∧
+    (g.q = match Groups.lookup P.T.ions g.resType with
+           | some q => P.micro q
+           | none => (match Groups.lookup P.T.charge g.type with | some q => P.micro q | none => P.ofInt 0)) := by
+  unfold mkGroupCore at h
+  split at h
+  · exact absurd h (by simp)
+  · split at h
+    · exact absurd h (by simp)
+    · simp only [Option.some.injEq] at h
+      have hg := congrArg Prod.snd h
+      simp only [buildGroup] at hg
+      subst hg
+      refine ⟨?_, ?_, rfl⟩
+      · simp only
+        cases Groups.lookup P.T.modelPkas _ <;> rfl
+      · intro p hp
+        simp only at hp ⊢
+        rw [hp]
+
 /-! ### --titrate_only -/
 /-- what --titrate_only may change of a group -/
 def eraseFlags (g : PGroup α) : PGroup α := { g with titratable := false, excludeCys := false }
